@@ -43,7 +43,7 @@ def dur(s):
 def cells_and_config():
     """-> (cells, methodConfig list, services {name: [rpc names]})"""
     cells, entries = [], []
-    svcs = {'Ret': [], 'Ret2': [], 'admin.Admin': []}
+    svcs = {'Ret': [], 'Ret2': [], 'Ret3': [], 'admin.Admin': []}
     streams = set()
     n = 0
 
@@ -70,6 +70,12 @@ def cells_and_config():
                               codes=list(codes) if with_policy else [], policy=POLICIES[policy] if with_policy else None,
                               timeout=dur(timeout), named=True, stream=stream))
 
+    # a service-wide entry listed *before* the entries that name methods of that service (the usual layout of published
+    # configs): the method's own entry still decides; what the service-wide entry means for the other methods is not judged
+    entries.append({'name': [{'service': f'{P}.Ret3'}], 'timeout': '59s',
+                    'retryPolicy': dict(POLICIES['hits-max'], retryableStatusCodes=['DEADLINE_EXCEEDED'])})
+    entry('after-service-wide/policy+timeout', ['UNAVAILABLE'], policy='fractional', timeout='7.5s', targets=[('Ret3', rpc('Ret3'))])
+    entry('after-service-wide/timeout-only', ['UNAVAILABLE'], timeout='3s', with_policy=False, targets=[('Ret3', rpc('Ret3'))])
     for c in CODES:
         entry(f'single/{c}', [c])
     for a, b in [('UNAVAILABLE', 'DEADLINE_EXCEEDED'), ('INTERNAL', 'UNKNOWN'), ('ABORTED', 'RESOURCE_EXHAUSTED')]:
